@@ -83,11 +83,13 @@ class C05(Check):
         "L4": "repacked stoichiometry changes each substrate occurrence by exactly -1 and each product occurrence by +1",
         "L6": "initial label placement addresses isotopomers by string position (position i <-> i-th character from the left, the "
               "convention of the pattern generator and of the map reader); addressing by bit significance (1 << i) mirrors the positions",
+        "L8": "totals are preserved at the start: every isotopomer of a labelled compound starts at 0 and the whole initial amount goes to "
+              "exactly one of them (the unlabelled one when no label is requested); unlabelled compounds keep their value",
         "L7": "substrate / product occurrence lists follow the declared order of the stoichiometry (no sorted/set/reversed): map "
               "positions refer to atoms in that order",
         "L5": "positions beyond the substrates enter labelled: external labels are '1' x (product labels - substrate labels)",
     }
-    floors = {"L1": 1, "L2": 3, "L3": 1, "L4": 2, "L5": 1, "L6": 1, "L7": 2}
+    floors = {"L1": 1, "L2": 3, "L3": 1, "L4": 2, "L5": 1, "L6": 1, "L7": 2, "L8": 2}
     decided = [
         "one isotopomer reaction per substrate labelling pattern, none skipped",
         "a map shorter than the substrates' atoms is rejected before any reaction is created",
@@ -186,12 +188,35 @@ class C05(Check):
 
         self.l6(mod)
         self.l7(mod)
+        self.l8(mod)
+
+    def l8(self, mod) -> None:
+        bm = mod.func("LabelMapper.build_model")
+        q = "LabelMapper.build_model"
+        lp = [l for l in ast.walk(bm) if isinstance(l, ast.For) and norm(l.iter) == "self.model.get_initial_conditions().items()"]
+        if not lp:
+            self.undecided_ob("L8", MOD, q, "initial-amounts", bm, "loop over the base model's initial conditions not found")
+            return
+        t = " ".join(norm(lp[0]).split())
+        zero = "d = zip(isos, it.repeat(0), strict=False) variables.update(d)" in t or "dict.fromkeys(isos, 0" in t
+        unl = "if label_pos is None: variables[isos[0]] = v" in t
+        plain = "if (isos := isotopomers.get(k)) is None: variables[k] = v" in t
+        if zero and unl:
+            self.holds("L8", MOD, q, "one-isotopomer-carries-the-total", lp[0], "all isotopomers start at 0; without a request the unlabelled one (isos[0]) receives the whole amount")
+        else:
+            self.violated("L8", MOD, q, "one-isotopomer-carries-the-total", lp[0],
+                          "the initial amount of a labelled compound is not placed on exactly one isotopomer (all others 0, unlabelled one by default)",
+                          witness="the summed isotopomers of a compound do not start at the base model's initial value, or start fully labelled")
+        if plain:
+            self.holds("L8", MOD, q, "unlabelled-compounds-keep-value", lp[0], "compounds without label positions keep their initial value")
+        else:
+            self.violated("L8", MOD, q, "unlabelled-compounds-keep-value", lp[0], "compounds without label positions do not keep their initial value")
 
     def l6(self, mod) -> None:
         bm = mod.func("LabelMapper.build_model")
         q = "LabelMapper.build_model"
         stores = [s for s in ast.walk(bm) if isinstance(s, ast.Assign) and isinstance(s.targets[0], ast.Subscript) and norm(s.targets[0].value) == "variables"
-                  and norm(s.value) == "v" and norm(s.targets[0].slice) not in ("k", "isos[0]")]
+                  and norm(s.value) == "v" and norm(s.targets[0].slice) not in ("k", "isos[0]", "isos[-1]")]
         if not stores:
             self.undecided_ob("L6", MOD, q, "initial-label-position", bm, "placement of the requested initial label not found")
             return
@@ -264,6 +289,7 @@ class C05(Check):
                     "                suffix = '__' + ''.join(('1' if idx in label_pos else '0' for idx in range(self.label_variables[k])))\n                variables[f'{k}{suffix}'] = v",
                     "                variables[isos[sum((1 << idx for idx in set(label_pos)))]] = v", expect="L6|", quick=True),
             Variant("sorted-stoichiometry", MOD, "_unpack_stoichiometries", "for k, v in stoichiometries.items():", "for k, v in sorted(stoichiometries.items()):", expect="L7|", quick=True),
+            Variant("default-to-fully-labelled", MOD, "LabelMapper.build_model", "variables[isos[0]] = v", "variables[isos[-1]] = v", expect="L8|"),
             Variant("map-before-external", MOD, C,
                     "        rate_suffix += external_labels\n        product_suffix = _map_substrates_to_products(rate_suffix=rate_suffix, labelmap=labelmap)",
                     "        product_suffix = _map_substrates_to_products(rate_suffix=rate_suffix, labelmap=labelmap)\n        rate_suffix += external_labels", expect="L5|"),
